@@ -14,8 +14,9 @@ META = {
             "markdown; every declared item exactly once; nothing from libraries or std) is searched on the real binary.",
     "note": "Trusted: Coq kernel; the hand model (sort keys and filters of export.rs; rendering of one entry is abstract); the syntactic "
             "translator for the sort/dedup/skip flags; a stable sort is any sorted permutation (proved unique). Index CONTENT that depends on "
-            "the order in which files are analysed (description / super types of a class declared in several files) is outside the model: "
-            "it belongs to C11 and is reported as a known finding while update_files_by_uri iterates a hash set. Axioms: none.",
+            "the order in which files are analysed (description / super types of a class declared in several files, members of a global assigned in "
+            "several files) is covered only by a small merge model (reproducible iff update_files_by_uri sorts the file ids - flag regenerated from "
+            "lib.rs; C11 owns that code) and by the search, not by the correspondence. Axioms: none.",
     "technique": "Coq proof (permutation invariance of sorting with entry-identifying keys; de-duplication on a sorted list) about a "
                  "hand-written Gallina model parameterised by flags generated from the source + exact model-vs-binary correspondence + "
                  "oracle search with repeated fresh processes",
@@ -23,11 +24,11 @@ META = {
 
 THEOREMS = [("export_reproducible", "theorem"), ("type_locs_reproducible", "theorem"), ("export_complete_once", "theorem"),
             ("modules_reproducible_iff_sorted", "theorem"), ("modules_complete_iff_not_skipped", "theorem"),
-            ("globals_once_iff_dedup", "theorem"), ("split_class_bases_refuted", "refutation"),
-            ("split_class_outside_known", "theorem"), ("export_example", "example")]
+            ("globals_once_iff_dedup", "theorem"), ("split_class_content_reproducible", "theorem"),
+            ("split_class_reproducible_iff_sorted", "theorem"), ("export_example", "example")]
 
 EXPECTED_FLAGS = {"modules_sorted": True, "types_sorted": True, "globals_sorted": True, "globals_dedup": True,
-                  "modules_skip_no_export": False, "type_locs_sorted": True,
+                  "modules_skip_no_export": False, "type_locs_sorted": True, "update_files_sorted": True,
                   "main_filter_export_modules": True, "main_filter_export_types": True, "main_filter_export_globals": True}
 
 TRUSTED = [
@@ -203,5 +204,5 @@ def main(argv):
              "classes declared in two files, globals assigned in two files and re-assigned in one file, modules returning nothing / a table / a class / "
              "a number, 0-2 library files declaring their own and main-workspace names) + 2 hand-written witnesses (corpus/C35); each exported by the real binary in "
              "3-5 fresh processes as json and 2-3 as markdown; non-trivial = at least one type, one global and two modules; distinct by file contents",
-        assumptions=["rendering of a single entry is a function of the index content (its dependence on the analysis order is C11's subject and is reported as a known finding)",
+        assumptions=["rendering of a single entry is a function of the index content; the index content is a function of the files and of the (sorted) analysis order (C11's subject)",
                      "correspondence and search are sampled (they validate the model and look for replays; the theorems carry the all-orders claim)"])
